@@ -515,7 +515,15 @@ pub fn handle_campaign(seed: u64, count: u64, max_ops: u64, ops_path: &str, impl
                     match r.below(10) {
                         0..=3 => format!("hwrite {} {}", id, hex(&pattern(*r.pick(&[1usize, 10, 64, 100, 700, 1024, 3000, 4096, 5000]), h * 131 + lines_done))),
                         4 | 5 => format!("hread {} {}", id, r.pick(&[1usize, 10, 100, 1000, 5000, 100000])),
-                        6 => format!("hseek {} {}", id, r.below(6000)),
+                        6 => {
+                            if r.chance(1, 3) {
+                                // overwrite in the middle, then a request larger than a small stream buffer's maximum:
+                                // the buffer is drained and dirty, the cursor is not at the end
+                                pending.push(format!("hwrite {} {}", id, hex(&pattern(*r.pick(&[1usize, 10, 100]), h * 7 + lines_done))));
+                                pending.push(format!("hread {} {}", id, r.pick(&[1100usize, 2000, 5000])));
+                            }
+                            format!("hseek {} {}", id, r.below(6000))
+                        }
                         7 => format!("hsetlen {} {}", id, r.pick(&[0usize, 10, 64, 100, 4095, 4096, 4097, 6000, 9000, 37, 128, 192, 1000, 1024, 4608, 5000, 5120, 8192])),
                         8 => format!("hflush {}", id),
                         _ => {
